@@ -77,7 +77,8 @@ class CHECK(Check):
                             elif kd == "lit":
                                 vals.append(["str", rng.choice(["", "ab", "x y", "NaN"])])
                             else:
-                                vals.append(["date", [rng.randint(1990, 2030), rng.randint(1, 12), rng.randint(1, 28), 0, 0, 0, 0]])
+                                # years outside the datetime64[ns] window (1677-09-21 .. 2262-04-11) included: sentinel dates such as 9999-12-31 are common
+                                vals.append(["date", [rng.choice([1, 1000, 1650, 1677, 1678, 2262, 2263, 2300, 9999] + [rng.randint(1990, 2030)] * 9), rng.randint(1, 12), rng.randint(1, 28), rng.choice([0, 0, 13]), 0, 0, rng.choice([0, 0, 999999])]])
                         elems.append([family_type, vals])
                     elif k < 0.8:
                         elems.append([1, [["int", rng.randint(0, 9)] for _ in other_names]])
